@@ -107,6 +107,7 @@ type Path struct {
 	fnsHit    map[*ssa.Function]bool
 	nQueries  int
 	mapOrderRev bool
+	logApps      []*Term
 	model        map[string]uint64 // an assignment satisfying the whole PC (nil = none known)
 	modelMemo    map[int]uint64
 	domVersion   int
